@@ -10,7 +10,9 @@ TOL = 1e-9
 K5 = "K5:highest-id-not-oldest-root"
 
 RULE = ("inputs with ignore_oldest_root=True: msprime tree sequences (2-6 contemporaneous samples, recombination, "
-        "so several roots of different ages) and single trees of every shape up to 5 leaves, in their natural "
+        "so several roots of different ages; 35% with 8-25 expected recombinations so that lineages re-attach to the "
+        "grand MRCA), a hand-built family in which a node hangs under the oldest root on two disjoint intervals and "
+        "under another parent in between (two edges from the oldest root to one child), and single trees of every shape up to 5 leaves, in their natural "
         "numbering (the oldest root has the highest id) and with the non-sample nodes renumbered at random (the "
         "highest id then usually belongs to another node); random prior grids, both probability spaces, outside "
         "standardisation and cache_inside on/off, num_threads None/1(/2), numpy-typed option values (np.bool_ for "
@@ -19,7 +21,9 @@ RULE = ("inputs with ignore_oldest_root=True: msprime tree sequences (2-6 contem
         "allele strings, populations, mutation times), 15% with tied node times. A case is non-trivial when the oldest root has a non-sample child (its messages "
         "matter); distinct by content hash."
         "About half of the inputs carry 1-3 extra mutations that sit on NO edge (above the root of the local tree; valid tskit input); the references count only mutations on edges, computed from the tables.")
-ASSUME = ["the specification side is an independent dense re-implementation of the inside/outside equations "
+ASSUME = ["metamorphic part: with the option, mutations added on an edge below the oldest root must leave every other "
+          "node's posterior unchanged",
+          "the specification side is an independent dense re-implementation of the inside/outside equations "
           "(tools/props/_discrete.py reference_inside_outside) with the ignored node chosen by TIME; it agrees "
           "with the implementation to 1e-15 whenever the ignored node is the same",
           "scipy.stats.poisson values enter model and reference as a table"]
@@ -29,9 +33,16 @@ def gen_cases(ctx, n_multi, n_single):
     rng = ctx.rng
     cases = []
     shapes = [s for k in range(3, 6) for s in D.tree_shapes(k)]
-    for k in range(n_multi + n_single):
-        if k < n_multi:
-            d = D.sim_dict(rng, n=rng.randint(2, 6))
+    nfam = max(4, (n_multi + n_single) // 8)
+    for k in range(n_multi + n_single + nfam):
+        if k >= n_multi + n_single:
+            d = D.reattach_family(rng)          # a child with two edges from the oldest root
+            kind = "reattach"
+        elif k < n_multi:
+            if rng.random() < 0.35:
+                d = D.sim_dict(rng, n=rng.randint(4, 6), rec_boost=True)   # many trees: lineages re-attach to the root
+            else:
+                d = D.sim_dict(rng, n=rng.randint(2, 6))
             kind = "multi"
         else:
             d = D.shape_to_tables(rng.choice(shapes), rng, L=rng.choice([1.0, 10.0, 1000.0]))
@@ -39,7 +50,7 @@ def gen_cases(ctx, n_multi, n_single):
             kind = "single"
         if kind == "multi" and rng.random() < 0.2:
             d = D.add_unary_chain(d, rng) or d
-        renum = rng.random() < 0.5
+        renum = rng.random() < (0.25 if kind == "reattach" else 0.5)
         if renum:
             d, _ = D.renumber(d, rng)
         cases.append(D.make_case(rng, d, kind=kind + ("/renumbered" if renum else "/natural"),
@@ -123,6 +134,70 @@ def renumber_check(ctx, case, stats):
                         {"case": case, "transformed": other, "map": {str(k): v for k, v in m.items()}})
 
 
+def multi_edge_child(d):
+    """some non-sample child has two or more edges from the oldest root (disjoint intervals)"""
+    old = D.oldest_node(d)
+    cnt = {}
+    for _l, _r, p, c in d["edges"]:
+        if p == old and not d["nodes_flags"][c]:
+            cnt[c] = cnt.get(c, 0) + 1
+    return any(v >= 2 for v in cnt.values())
+
+
+def posterior_rows(case, res):
+    """normalised inside*outside of every non-sample node, in linear numbers"""
+    ins = lin_rows(case, res["inside"])
+    out = lin_rows(case, res["outside"])
+    rows = []
+    for a, b in zip(ins, out):
+        if a is None or b is None:
+            rows.append(None)
+            continue
+        v = [x * y for x, y in zip(a, b)]
+        t = sum(v)
+        rows.append([x / t for x in v] if t > 0 else None)
+    return rows
+
+
+def mutation_check(ctx, case, res, stats):
+    """with ignore_oldest_root=True the messages of the oldest root are left out, so the number of mutations
+    on an edge whose parent is the oldest root must not affect the posterior of any OTHER node"""
+    d = case["ts"]
+    n = len(d["nodes_time"])
+    old = D.oldest_node(d)
+    if old is None:
+        return
+    cand = [k for k, (_l, _r, p, _c) in enumerate(d["edges"]) if p == old]
+    if not cand:
+        return
+    k = ctx.rng.choice(cand)
+    counts = [0] * len(d["edges"])
+    counts[k] = ctx.rng.randint(1, 3)
+    d2 = D.canon(D.add_mutations(d, counts, ctx.rng))
+    if [e[2:] for e in d2["edges"]] != [e[2:] for e in d["edges"]]:
+        return
+    other = dict(case, ts=d2)
+    try:
+        res2 = D.run_io_impl(other)
+    except Exception as e:
+        ctx.oracle_fail("exception:" + type(e).__name__, "outside_pass raised %r after adding mutations below the root" % (e,),
+                        {"case": other})
+        return
+    pa, pb = posterior_rows(case, res), posterior_rows(other, res2)
+    worst = 0.0
+    for u in range(n):
+        if u == old or pa[u] is None or pb[u] is None:
+            continue
+        worst = max(worst, max(abs(x - y) for x, y in zip(pa[u], pb[u])))
+    natural = (old == n - 1)
+    if natural:
+        stats["mutation"] = max(stats.get("mutation", 0.0), worst)
+    if not worst <= TOL:
+        ctx.oracle_fail("root-edge-mutations-change-posteriors" if natural else K5,
+                        "adding mutations on an edge below the oldest root changes another node's posterior by %.3g" % worst,
+                        {"case": case, "with_mutations": other, "edge": k})
+
+
 def matters(case):
     d = case["ts"]
     old = D.oldest_node(d)
@@ -148,6 +223,10 @@ def run(ctx, model_ok=True):
         res.append(r)
         spec_check(ctx, c, r, stats)
         renumber_check(ctx, c, stats)
+        mutation_check(ctx, c, r, stats)
+        if multi_edge_child(c["ts"]):
+            ctx.tally("child-with-several-edges-from-oldest-root" + ("/natural" if nat else "/renumbered"))
+    ctx.notes["max_posterior_change_from_root_edge_mutations"] = stats.get("mutation")
     ctx.notes["max_rel_diff_to_spec_when_highest_id_is_oldest_root"] = stats.get("natural")
     ctx.notes["max_rel_change_under_renumbering_keeping_oldest_root_last"] = stats.get("renumber_natural")
     ctx.notes["tolerance"] = TOL
@@ -164,6 +243,7 @@ def search(ctx):
             continue
         spec_check(ctx, c, r, stats)
         renumber_check(ctx, c, stats)
+        mutation_check(ctx, c, r, stats)
         if ctx.oracle_fails:
             return
 
@@ -171,6 +251,8 @@ def search(ctx):
 def replay(ctx, data):
     case = data["case"]["case"]
     before = len(ctx.oracle_fails) + len(ctx.known_hits)
-    spec_check(ctx, case, D.run_io_impl(case), {})
+    r = D.run_io_impl(case)
+    spec_check(ctx, case, r, {})
     renumber_check(ctx, case, {})
+    mutation_check(ctx, case, r, {})
     return len(ctx.oracle_fails) + len(ctx.known_hits) == before
